@@ -238,19 +238,41 @@ def w_table(case):
         # model, which forwards the regimen
         pm.fix_parameters({'central.size': 1.2})
     reg = case['reg']
-    kw = {'dose': reg['dose'], 'start': reg['start'], 'duration': reg['duration']}
-    if reg['period'] is not None:
-        kw['period'] = reg['period']
-    if reg['num'] is not None:
-        kw['num'] = reg['num']
-    pm.set_dosing_regimen(**kw)
+    if reg['kind'] == 'events':
+        # an explicit protocol of several events (one-off and periodic ones), as a
+        # dataset with one dose row per administration produces
+        import myokit
+        prot = myokit.Protocol()
+        for e in reg['events']:
+            prot.add(myokit.ProtocolEvent(
+                e['dose'] / e['duration'], e['start'], e['duration'],
+                e['period'] or 0, 0 if (not e['period'] or e['num'] is None)
+                else e['num']))
+        pm.set_dosing_regimen(prot)
+    else:
+        kw = {'dose': reg['dose'], 'start': reg['start'],
+              'duration': reg['duration']}
+        if reg['period'] is not None:
+            kw['period'] = reg['period']
+        if reg['num'] is not None:
+            kw['num'] = reg['num']
+        pm.set_dosing_regimen(**kw)
     ntr = 2
     outcome = []
+
+    def table_of(ft):
+        if reg['kind'] != 'events':
+            return rd.table(reg['dose'], reg['start'], reg['duration'],
+                            reg['period'], reg['num'], ft)
+        rows = []
+        for e in reg['events']:
+            rows += rd.table(e['dose'], e['start'], e['duration'], e['period'],
+                             e['num'], ft)
+        return sorted(rows)
     for ft in case['final_times']:
         df = pm.get_dosing_regimen(final_time=ft)
         ntr += 1
-        exp = rd.table(reg['dose'], reg['start'], reg['duration'], reg['period'],
-                       reg['num'], ft)
+        exp = table_of(ft)
         got = [] if df is None else sorted(
             (float(r['Time']), float(r['Duration']), float(r['Dose']))
             for _, r in df.iterrows())
@@ -260,7 +282,7 @@ def w_table(case):
         if ft is not None and case.get('sample_rows', True):
             # the sample table repeats exactly these rows under every sample ID
             for ns in (2, 3):
-                df_s = pm.sample([0.4, 0.9, 0.5, 0.2][:pm.n_parameters()],
+                df_s = pm.sample([0.4, 0.9, 0.5, 0.2, 0.7, 0.3][:pm.n_parameters()],
                                  [0.1 * ft, ft], n_samples=ns, seed=1,
                                  include_regimen=True)
                 ntr += 1
@@ -283,7 +305,8 @@ def w_table(case):
                         'behaviour': 'sample_rows'})
                     break
         if not ok:
-            indefinite = reg['period'] is not None and reg['num'] is None
+            indefinite = reg['kind'] != 'events' and \
+                reg['period'] is not None and reg['num'] is None
             viol.append({
                 'sub': 'table', 'message': 'get_dosing_regimen(final_time=%s) does '
                 'not list exactly the dose events applied up to then (%s)'
@@ -324,6 +347,12 @@ def _wrapped_predictive(kind, reg_first, kw):
         w = chi.PopulationPredictiveModel(pred(), popbuild.build(
             rp.Comp([rp.P(1), rp.LN(1), rp.P(1), rp.P(1)]), None))
         args = {'parameters': [0.6, 0.1, 0.3, 0.7, 0.2]}
+    elif kind == 'popcov':
+        # (a covariate population model: the sample table carries covariate rows)
+        w = chi.PopulationPredictiveModel(pred(), popbuild.build(
+            rp.Comp([rp.P(1), rp.Cov(rp.LN(1), 1), rp.P(1), rp.P(1)]), None))
+        args = {'parameters': [0.6, 0.1, 0.3, 0.2, 0.15, 0.7, 0.2][
+                    :w.n_parameters()], 'covariates': [1.3]}
     elif kind == 'prior':
         w = chi.PriorPredictiveModel(pred(), pints.ComposedLogPrior(*[
             pints.UniformLogPrior(0.3 + 0.1 * i, 0.9 + 0.1 * i)
@@ -743,11 +772,29 @@ def build(tier, seed):
                               'final_times': [None, start + (num - 1) * per,
                                               start + num * per,
                                               start + (num + 2) * per]})
+    # explicit protocols of several events: every ordered pair / triple out of a
+    # menu of one-off, finite periodic and indefinite periodic events
+    ev_menu = [
+        {'dose': 2.0, 'start': 1.0, 'duration': 0.5, 'period': None, 'num': None},
+        {'dose': 3.0, 'start': 4.0, 'duration': 1.0, 'period': None, 'num': None},
+        {'dose': 5.0, 'start': 0.25, 'duration': 0.25, 'period': None,
+         'num': None},
+        {'dose': 1.5, 'start': 0.5, 'duration': 0.1, 'period': 1.5, 'num': 3},
+        {'dose': 0.5, 'start': 2.0, 'duration': 0.2, 'period': 2.5, 'num': None}]
+    for n_ in (2, 3):
+        for evs in itertools.permutations(ev_menu, n_):
+            if sum(1 for e in evs if e['period'] and e['num'] is None) and \
+                    any(e['period'] is None and e['start'] > 3 for e in evs) and \
+                    n_ == 3 and tier == 'quick':
+                continue
+            table.append({'reg': {'kind': 'events', 'events': list(evs)},
+                          'route': ['direct', 'indirect'][len(table) % 2],
+                          'final_times': [None, 0.3, 1.0, 2.0, 4.0, 5.0, 8.0]})
     wrapped = []
     wregs = regimens('thorough')
     if tier == 'quick':
         wregs = wregs[::5]
-    for kind in ('pop', 'prior', 'post', 'pam'):
+    for kind in ('pop', 'popcov', 'prior', 'post', 'pam'):
         for reg in wregs:
             ft = [None, 1.0, 2.5, reg['start'], reg['start'] + reg['duration']]
             wrapped.append({'kind': kind, 'reg': reg, 'final_times': ft,
@@ -841,3 +888,4 @@ META['level_text'] += (
     "on calls over amount variable x route), a model with its own 'dose' compartmen"
     't, datasets given after an earlier dataset (with / without dose information), '
     'dose rows without a time, outputs re-selected while sensitivities are on.')
+META['level_text'] += (' Wave 9: explicit protocols of two and three events (one-off, finite, indefinite) in the regimen table, covariate population predictive models.')
